@@ -137,6 +137,11 @@ def run(unit, repo, build_dir, timeout=900, rlimit=None, extra_args=None):
             site_ln = site["line_start"]
         tags = tags_near(gen, clause_ln) if clause_ln else []
         fn = fn_at(report, site_ln) or fn_at(report, clause_ln)
+        if not tags and fn:
+            dt = [f.get("default_tag") for f in report.get("functions", []) if f["fn"] == fn and f.get("default_tag")
+                  and f.get("gen_lines") and f["gen_lines"][0] <= (site_ln or clause_ln or 0) <= f["gen_lines"][1]]
+            if dt:
+                tags = [dt[0]]
         src = None
         for probe in (site_ln, clause_ln):
             if probe and probe - 1 < len(origin) and origin[probe - 1]:
